@@ -152,10 +152,11 @@ func (l *lockerSim) root() {
 			break
 		}
 		l.checkExclusion()
+		ps := l.sched.snapshotParked()
+		l.checkNoNeedlessWait(ps, tasks)
 		if len(l.viols) > 0 {
 			break
 		}
-		ps := l.sched.snapshotParked()
 		for _, p := range ps {
 			if !p.counted {
 				p.counted = true
@@ -364,6 +365,67 @@ func (l *lockerSim) checkExclusion() {
 		}
 		if holders > 1 {
 			l.counter["probe.concurrent-holders"]++
+		}
+	}
+}
+
+// checkNoNeedlessWait: "grants every pending request once the conflicting holders have
+// released". At a quiescent point a request still waiting inside Lock must conflict with
+// something that may hold a lock: a request whose Lock has returned and that has not
+// finished unlocking (holding, or parked at lock.release), a request already granted
+// (parked at lock.granted), or a cancelled waiter that may have been granted meanwhile
+// (parked at lock.cancelled). Otherwise its conflicting holders are gone and it was not
+// granted.
+func (l *lockerSim) checkNoNeedlessWait(ps []*Task, tasks []*Task) {
+	parkedAt := map[*Task]string{}
+	for _, p := range ps {
+		parkedAt[p] = p.point
+	}
+	reads, writes := map[string]bool{}, map[string]bool{}
+	add := func(r *lockRec) {
+		for _, a := range r.read {
+			reads[a] = true
+		}
+		for _, a := range r.write {
+			writes[a] = true
+		}
+	}
+	for _, r := range l.recs {
+		if r.holding {
+			add(r)
+		}
+	}
+	for _, tk := range tasks {
+		r := l.cur[tk]
+		if r == nil {
+			continue
+		}
+		switch parkedAt[tk] {
+		case "lock.granted", "lock.cancelled", "lock.release":
+			add(r)
+		}
+	}
+	for _, tk := range tasks {
+		r := l.cur[tk]
+		if r == nil || !r.invoked || r.returned || r.cancelled {
+			continue
+		}
+		if _, isParked := parkedAt[tk]; isParked {
+			continue
+		}
+		conflict := false
+		for _, a := range r.read {
+			if writes[a] {
+				conflict = true
+			}
+		}
+		for _, a := range r.write {
+			if writes[a] || reads[a] {
+				conflict = true
+			}
+		}
+		if !conflict {
+			l.violate("waiting-although-compatible", fmt.Sprintf("%s (R=%v W=%v) is still waiting inside Lock although nothing that holds or may hold a lock conflicts with it", r.name, r.read, r.write))
 		}
 	}
 }
